@@ -76,6 +76,8 @@ def stage_cfgs(pid, tier, rng):
                     rnd.append(C(inputs=[[2, 2, 1, 1, 3, 2, 3]], n=rng.randint(1, 8), **base))
             # the empty input and a gated run of the user function
             mc.append(C(kind=kind, cap=1, mode="pure", pred=[1, 3], monoid="digits9", inputs=[[]], n=1))
+            if kind == "Fold":
+                rnd.append(C(kind=kind, cap=1, monoid="sumref", inputs=[[2, 3, 4]]))
             if kind not in ("Void", "Take"):
                 mc.append(C(kind=kind, cap=1, mode="pure", pred=[2], monoid="digits9", inputs=[[1, 2]], gate=True))
                 gen.append(C(kind=kind, cap=1, mode="pure", pred=[2], monoid="digits9", inputs=[[1, 2]], gate=True))
@@ -152,6 +154,10 @@ def stage_cfgs(pid, tier, rng):
                         mc.append(C(kind=kind, forked=True, par=3, cap=1, mode="lift", inputs=[[1, 2, 3]], fail=[1, 2, 3], gate=False))
                     gen.append(C(kind=kind, forked=True, par=3, cap=1, mode="lift", inputs=[[1, 2, 3]], fail=[1, 2, 3], gate=False))
     elif pid == "C10":
+        # a monoid over a reference type: Empty returns a fresh accumulator, Combine updates its first argument in place
+        for par in [1, 2, 3]:
+            for ln in (0, 2, 4):
+                rnd.append(C(kind="Fold", forked=True, par=par, cap=1, monoid="sumref", inputs=[[2, 3, 4, 5][:ln]], gate=ln == 2))
         for par in [1, 2, 3, 4]:
             for mono in ("sum", "prod", "max", "min", "and", "or"):
                 vals = {"and": [6, 5, 3, 7], "or": [1, 2, 4, 1]}.get(mono, [2, 3, 4, 5])
